@@ -6,11 +6,11 @@ import (
 	"crypto/sha1"
 	"fmt"
 	"io"
-	"net"
 	"net/http"
 	"net/http/httptest"
 	"strconv"
 	"sync"
+	"syscall"
 )
 
 // Behaviour of one path.
@@ -133,13 +133,34 @@ func (s *Server) handle(w http.ResponseWriter, r *http.Request) {
 	}
 }
 
-// ClosedPortURL returns an http URL on which nothing listens (connection refused).
+// ClosedPortURL returns an http URL on which nothing listens (connection refused). The port is RESERVED for the life of the
+// process: a socket is bound to it and never listens, so the kernel refuses every connection and hands the port to nobody else
+// (a port that is merely closed again is given to the next listener of any process on the machine - a parallel world's origin
+// then answers for the "dead" mirror, which is a different experiment from the one the model describes).
 func ClosedPortURL() string {
-	l, err := net.Listen("tcp", "127.0.0.1:0")
-	if err != nil {
-		panic(err)
+	closedMu.Lock()
+	defer closedMu.Unlock()
+	if len(closedAddrs) < 16 {
+		fd, err := syscall.Socket(syscall.AF_INET, syscall.SOCK_STREAM, 0)
+		if err != nil {
+			panic(err)
+		}
+		if err := syscall.Bind(fd, &syscall.SockaddrInet4{Port: 0, Addr: [4]byte{127, 0, 0, 1}}); err != nil {
+			panic(err)
+		}
+		sa, err := syscall.Getsockname(fd)
+		if err != nil {
+			panic(err)
+		}
+		closedAddrs = append(closedAddrs, fmt.Sprintf("127.0.0.1:%d", sa.(*syscall.SockaddrInet4).Port))
+		return "http://" + closedAddrs[len(closedAddrs)-1]
 	}
-	addr := l.Addr().String()
-	l.Close()
-	return "http://" + addr
+	closedNext++
+	return "http://" + closedAddrs[closedNext%len(closedAddrs)]
 }
+
+var (
+	closedMu    sync.Mutex
+	closedAddrs []string
+	closedNext  int
+)
